@@ -14,8 +14,8 @@ import (
 // mapRangeTable: order-sensitive map ranges that are safe for a reason that is
 // not visible in the loop itself. Key: enclosing function + "|" + ranged expression.
 var mapRangeTable = map[string]string{
-	"notations/jschema/checker.checkJsonType|stringBasedTypes":                   "keys are the format constraints created from the single `type` rule of a node; a node carries at most one of them (duplicate rules are rejected with ErrDuplicateRule), so at most one iteration can match",
-	"(notations/jschema/ischema.baseNode).SchemaType|constraintToSchemaTypeMap":  "keys are type-derived constraints; a node carries at most one of them (single `type` rule; `enum`/`any`/`or` are mutually exclusive by the compiler's checks), so at most one iteration can match",
+	"notations/jschema/checker.checkJsonType|stringBasedTypes":                           "keys are the format constraints created from the single `type` rule of a node; a node carries at most one of them (duplicate rules are rejected with ErrDuplicateRule), so at most one iteration can match",
+	"(notations/jschema/ischema.baseNode).SchemaType|constraintToSchemaTypeMap":          "keys are type-derived constraints; a node carries at most one of them (single `type` rule; `enum`/`any`/`or` are mutually exclusive by the compiler's checks), so at most one iteration can match",
 	"(notations/jschema/loader.schemaCompiler).allowedConstraintCheck|bannedConstraints": "outer keys are the format/any constraints of which a node has at most one; the inner loop ranges over a slice (ordered), so the reported pair is unique",
 }
 
